@@ -282,7 +282,7 @@ func (ex *Exec) axiomT(trigger *Term, key string, fact *Term) {
 	}
 	ex.axDone[key] = true
 	ex.axioms++
-	ex.axByTrig[trigger.id] = append(ex.axByTrig[trigger.id], &axEntry{fact: fact})
+	ex.axByTrig[trigger.id] = append(ex.axByTrig[trigger.id], &axEntry{fact: fact, fpSafe: strings.HasPrefix(key, "log") || strings.HasPrefix(key, "flog")})
 }
 
 func (ex *Exec) axiomT2(t1, t2 *Term, key string, fact *Term) {
@@ -346,7 +346,16 @@ func (ex *Exec) check(extras []*Term, want []*Term) (string, map[string]ModelVal
 		return "unknown", nil // the run's time budget is spent: everything further is inconclusive
 	}
 	if ex.fpMode {
-		return ex.sol.Check(extras, want, false) // no real-arithmetic lemmas in the bit-precise mode
+		// no real-arithmetic lemmas in the bit-precise mode; only the facts that are also true of the
+		// rounded binary64 function (the sign and range facts of math.Log)
+		all := append([]*Term(nil), extras...)
+		axs, _ := ex.relevantAxioms(extras)
+		for _, e := range axs {
+			if e.fpSafe {
+				all = append(all, e.fact)
+			}
+		}
+		return ex.sol.Check(all, want, false)
 	}
 	ax, nl := ex.relevantAxioms(extras)
 	if len(ax) == 0 {
@@ -404,6 +413,14 @@ func (ex *Exec) mLog(x F) F {
 		tb.Implies(tb.RLt(one, x.T), tb.RLt(zero, t)),
 		tb.Implies(tb.And(pos, tb.RLt(x.T, one)), tb.RLt(t, zero)),
 	))
+	if t.sort == SFloat {
+		// bit-precise mode: range facts of the natural logarithm on binary64 (true of any implementation
+		// that is accurate to a few ulps): finite on positive finite arguments, >= -30 on [1e-13, 1]
+		ex.axiomT(t, "flog"+strconv.Itoa(x.T.id), tb.And(
+			tb.Implies(tb.And(pos, tb.RLe(x.T, tb.FConst(math.MaxFloat64))), tb.And(tb.RLe(tb.FConst(-746), t), tb.RLe(t, tb.FConst(710)))),
+			tb.Implies(tb.And(tb.RLe(tb.FConst(1e-13), x.T), tb.RLe(x.T, one)), tb.RLe(tb.FConst(-30), t)),
+		))
+	}
 	d := x.D
 	if pos != tb.True {
 		d = ex.andD(d, pos)
